@@ -31,7 +31,9 @@ RULE = ("cases: one case = one bucket layout (0..6 buckets spread over up to 4 p
         "3 prefix directories and more; 24 sampled pairs beyond 4 buckets), every subset for layouts of at most 2 buckets, and kills around every non-routine event of "
         "every slice of the singly interrupted schedules (all of them up to 2 buckets, 3 per slice beyond); quick: a seeded "
         "sample of the same; "
-        "distinct = distinct (layout shape, schedule); non-trivial = a run that finishes at least one cycle after an "
+        "crashes INSIDE save_state (process death or ENOSPC after 0 / half / all bytes of the state write) after completed "
+        "cycles, at the cycle-ending and at an interrupted slice's save; histories with buckets added/removed between cycles; "
+        "damaged stores under the real lease checker; distinct = distinct (layout shape, schedule); non-trivial = a run that finishes at least one cycle after an "
         "interruption or a kill")
 META = {
     "title": "Share crawler covers every bucket each cycle",
@@ -44,7 +46,9 @@ META = {
     "level_note": ("Buckets exist throughout the run (fixed set).  Hypothesis (stated in wf_dirs, shown necessary by "
                    "cycle_covers_all_needs_layout): every bucket name begins with the name of its prefix directory, which is what "
                    "storage_index_to_dir produces.  The reactor timer, sleep-time arithmetic and progress estimates are not "
-                   "modelled; save_state is assumed atomic (fileutil.move_into_place)."),
+                   "modelled.  File-system hypothesis (Model/Crawler.v torn_save): a crash inside save_state leaves the "
+                   "previous or the new state (temporary file + atomic rename); the driver kills the process / fills the disk after "
+                   "0, half and all bytes of the state write and checks exactly that on the real code."),
     "technique": "Coq proof (invariants over runs of an executable model, any schedule and kill points) + differential run vs the real crawler with scripted time + direct oracle",
     "design_ref": "8/C27, A.6",
     "trusted_base": ["hand-written model coq/Model/Crawler.v, tied to crawler.py by AST fingerprints and the correspondence run",
@@ -81,6 +85,70 @@ class ScriptedTime(object):
         return self.now
 
 
+class DiskFull(OSError):
+    pass
+
+
+class _DyingFile(object):
+    """A file the process does not finish writing: `mode` = "0" (nothing), "half", "all" (everything
+    written, the process dies before anything else happens); "enospc-..." raises ENOSPC instead of dying."""
+
+    def __init__(self, f, mode):
+        self.f = f
+        self.mode = mode
+
+    def __enter__(self):
+        return self
+
+    def __exit__(self, *exc):
+        self.f.close()
+        return False
+
+    def write(self, data):
+        what = self.mode.split("-")[-1]
+        if what == "half":
+            self.f.write(data[:len(data) // 2])
+        elif what == "all":
+            self.f.write(data)
+        self.f.flush()
+        if self.mode.startswith("enospc"):
+            import errno
+            raise DiskFull(errno.ENOSPC, "No space left on device")
+        raise Killed()
+
+    def close(self):
+        self.f.close()
+
+
+class DyingWrites(object):
+    """While active, the next file of the state file's family (the file itself or its .tmp sibling)
+    opened for writing through twisted's FilePath.open dies during its first write."""
+
+    def __init__(self, basename, mode):
+        self.basename = basename.rsplit(".json", 1)[0]
+        self.mode = mode
+
+    def __enter__(self):
+        from twisted.python.filepath import FilePath
+        self.FilePath = FilePath
+        self.orig = FilePath.open
+        me = self
+
+        def patched(fp, mode="r"):
+            f = me.orig(fp, mode)
+            name = os.path.basename(fp.path)
+            if isinstance(name, bytes):
+                name = name.decode("ascii", "replace")
+            if "w" in mode and name.startswith(me.basename):
+                return _DyingFile(f, me.mode)
+            return f
+        FilePath.open = patched
+        return self
+
+    def __exit__(self, *a):
+        self.FilePath.open = self.orig
+
+
 def make_recorder():
     from allmydata.storage.crawler import ShareCrawler
 
@@ -115,11 +183,34 @@ def make_recorder():
         def finished_cycle(self, cycle):
             self._event(("fin", cycle))
 
+        def intended_state(self):
+            """What save_state is about to write (the crawler's own keys), canonical."""
+            st = self.state
+            return (st["last-cycle-finished"], st["current-cycle"], self.last_complete_prefix_index + 1, st["last-complete-bucket"])
+
         def save_state(self):
+            self.saves_in_slice = getattr(self, "saves_in_slice", 0) + 1
+            crash = getattr(self, "crash_in_save", None)
+            if crash is not None and crash[0] == self.saves_in_slice:
+                # the process dies (or the disk is full) inside this save_state call, after `mode` of the
+                # bytes of the next write to a file of the state file's family
+                self.crashed_after_events = self.slice_events
+                self.crash_intended = self.intended_state()
+                with DyingWrites(os.path.basename(self._state_serializer._path.path), crash[1]):
+                    ShareCrawler.save_state(self)
+                raise AssertionError("save_state returned although a crash was injected")
             ShareCrawler.save_state(self)
             self._event(("save",) + read_state(self._state_serializer._path.path, self.prefixes))
 
     return Recorder
+
+
+def read_state_safe(path, prefixes):
+    """read_state, or ("unreadable state file",) when the file does not parse."""
+    try:
+        return read_state(path, prefixes)
+    except Exception:
+        return ("unreadable state file",)
 
 
 def read_state(path, prefixes):
@@ -239,8 +330,11 @@ def schedule_from_points(points, cycles_extra=1):
     return specs
 
 
-def run_impl(layout, specs):
-    """Run the real crawler.  Returns (per-slice event lists, final saved state or None)."""
+def run_impl_ex(layout, specs):
+    """Run the real crawler.  A kill is None, a number of events, or ["save", j, mode]: the process dies (or
+    the disk fills) inside the j-th save_state call of the slice.  Returns (per-slice event lists, final saved
+    state or None, the schedule in the model's terms, [(state on disk before, state being written, state the
+    restarted crawler loaded)] for the crashes inside save_state)."""
     from allmydata.storage import crawler as crawler_mod
     Recorder = make_recorder()
     layout.runs += 1
@@ -249,6 +343,8 @@ def run_impl(layout, specs):
     saved_time = crawler_mod.time
     crawler_mod.time = clock
     slices = []
+    model_specs = []
+    restarts = []
     try:
         log = []
         c = Recorder(layout.ss, statefile, clock, log)
@@ -257,19 +353,40 @@ def run_impl(layout, specs):
             clock.ticks = list(ticks)
             clock.pending_check = False
             c.slice_events = 0
-            c.kill_after = kill
+            c.saves_in_slice = 0
+            in_save = isinstance(kill, (list, tuple))
+            c.kill_after = None if in_save else kill
+            c.crash_in_save = (kill[1], kill[2]) if in_save else None
+            c.crashed_after_events = None
+            on_disk = read_state_safe(statefile + ".json", c.prefixes) if os.path.exists(statefile + ".json") else (None, None, 0, None)
+            mkill = kill
             if kill == 0:
                 killed = True
             else:
                 try:
                     c.start_slice()
                     killed = kill is not None    # completed although a kill was scheduled: dies between slices
-                except Killed:
+                    if in_save:
+                        mkill = len(log) + 5     # fewer than j saves in this slice: dies between slices
+                except (Killed, DiskFull):
                     killed = True
+                    if in_save:
+                        mkill = c.crashed_after_events
             slices.append(list(log))
+            model_specs.append((ticks, mkill))
             if killed:
+                old = c
                 c = Recorder(layout.ss, statefile, clock, log)
-        final = read_state(statefile + ".json", c.prefixes) if os.path.exists(statefile + ".json") else None
+                if in_save and old.crashed_after_events is not None:
+                    before = on_disk
+                    for ev in slices[-1]:
+                        if ev[0] == "save":
+                            before = tuple(ev[1:])
+                    restarts.append((before, old.crash_intended, c.intended_state()))
+        final = read_state_safe(statefile + ".json", c.prefixes) if os.path.exists(statefile + ".json") else None
+        if final is not None and len(final) != 4:
+            restarts.append((on_disk, c.intended_state(), final))
+            final = None
     finally:
         crawler_mod.time = saved_time
     for ext in (".json", ".tmp"):
@@ -277,7 +394,11 @@ def run_impl(layout, specs):
             os.unlink(statefile + ext)
         except OSError:
             pass
-    return slices, final
+    return slices, final, model_specs, restarts
+
+
+def run_impl(layout, specs):
+    return run_impl_ex(layout, specs)[:2]
 
 
 def run_impl_epochs(layout, epochs, rng):
@@ -481,6 +602,36 @@ def oracle(ctx, layout, specs, slices, final, case):
     return finished
 
 
+def judge_restarts(ctx, restarts, case):
+    """A crash inside save_state leaves the previous or the new state on disk, never anything else."""
+    for before, intended, loaded in restarts:
+        if loaded not in (before, intended):
+            ctx.oracle_fail("crawler-state-lost-by-crash-in-save-state",
+                            "the process died inside save_state; the state file held %r, %r was being written, the restarted crawler "
+                            "starts from %r" % (before, intended, loaded), case=case, expected=[list(before), list(intended)], observed=list(loaded))
+
+
+SAVE_CRASH_MODES = ["0", "half", "all", "enospc-0", "enospc-half"]
+
+
+def save_crash_schedules(layout, thorough, rng):
+    """Schedules with a crash inside save_state after at least one completed cycle."""
+    pts = layout.interesting()
+    out = []
+    modes = SAVE_CRASH_MODES if thorough else [rng.choice(SAVE_CRASH_MODES[:2]), rng.choice(SAVE_CRASH_MODES)]
+    for mode in modes:
+        full = ([], None)
+        # inside the save that ends a cycle (first or second save_state of the finishing slice)
+        for j in ((1, 2) if thorough else (rng.choice([1, 2]),)):
+            out.append([full, full, ([], ["save", j, mode]), full, full])
+        # inside the save of an interrupted slice of the third cycle
+        p = rng.choice(pts) if pts else 0
+        out.append([full, full, ([False] * p + [True], ["save", 1, mode]), full, full])
+        if thorough:
+            out.append([full, ([], ["save", 2, mode]), ([], ["save", 1, mode]), full])
+    return out
+
+
 def case_record(layout, specs):
     return {"layout": {str(i): layout.counts[i] for i in sorted(layout.counts)},
             "buckets": {str(i): layout.buckets[i] for i in sorted(layout.buckets)},
@@ -489,7 +640,7 @@ def case_record(layout, specs):
 
 def compress(specs):
     """Canonical short form of a schedule for the distinct-case key."""
-    return tuple((sum(1 for b in t if not b), sum(1 for b in t if b), k) for t, k in specs)
+    return tuple((sum(1 for b in t if not b), sum(1 for b in t if b), tuple(k) if isinstance(k, list) else k) for t, k in specs)
 
 
 class Batch(object):
@@ -500,13 +651,14 @@ class Batch(object):
 
     def add(self, layout, specs, kind):
         ctx = self.ctx
-        slices, final = run_impl(layout, specs)
+        slices, final, model_specs, restarts = run_impl_ex(layout, specs)
         case = case_record(layout, specs)
         finished = oracle(ctx, layout, specs, slices, final, case)
+        judge_restarts(ctx, restarts, case)
         disturbed = len(specs) > 2 or any(k is not None for _, k in specs)
         key = (tuple(sorted(layout.counts.items())), compress(specs))
         ctx.case(key if (finished and disturbed) else None, kind=kind)
-        self.terms.append(model_term(layout, specs, slices, final))
+        self.terms.append(model_term(layout, model_specs, slices, final))
         obs = [list(ev) for sl in slices for ev in sl if ev[0] != "pdone"]
         self.info.append((case, obs, final))
         if len(ctx.samples) < 4 and disturbed and layout.n >= 2:
@@ -643,6 +795,10 @@ def run(ctx):
                     ks[sj] = (specs[sj][0], k)
                     ks = ks + [([], None)]
                     batch.add(layout, ks, "kill")
+        # the process dies (or the disk fills) inside save_state
+        if thorough or li < 8:
+            for specs in save_crash_schedules(layout, thorough and li % 4 == 0, ctx.rng("savecrash", li)):
+                batch.add(layout, specs, "crash-inside-save_state")
         # pairs / all subsets
         if thorough:
             import itertools
@@ -1011,7 +1167,8 @@ def replay(ctx, rec):
     counts = {int(k): v for k, v in case["layout"].items()}
     layout = Layout("replay", counts, ctx.rng("replay"))
     specs = [([bool(b) for b in ticks], kill) for ticks, kill in case["specs"]]
-    slices, final = run_impl(layout, specs)
+    slices, final, _, restarts = run_impl_ex(layout, specs)
     oracle(ctx, layout, specs, slices, final, case_record(layout, specs))
+    judge_restarts(ctx, restarts, case_record(layout, specs))
     return {"note": "bucket names are regenerated (same shape: buckets per prefix directory)",
             "log_without_finished_prefix": [list(ev) for sl in slices for ev in sl if ev[0] != "pdone"], "final_state": final}
